@@ -54,10 +54,12 @@ func init() {
 
 // c02Input is the replayable description of one case.
 type c02Input struct {
-	Op    string `json:"op"` // "roundtrip" | "stability"
-	Value *Val   `json:"value,omitempty"`
-	Bytes string `json:"bytes,omitempty"` // hex
-	Frame string `json:"corpus_frame,omitempty"`
+	Op    string   `json:"op"` // "roundtrip" | "stability"
+	Value *Val     `json:"value,omitempty"`
+	Bytes string   `json:"bytes,omitempty"` // hex
+	Frame string   `json:"corpus_frame,omitempty"`
+	Label string   `json:"label,omitempty"`
+	Path  []string `json:"path,omitempty"`
 }
 
 // ---------------------------------------------------------------------------------------------
@@ -359,6 +361,7 @@ func runC02(r *enumlib.Run) {
 	// the live heap is a few megabytes and every case allocates: collect less often
 	defer debug.SetGCPercent(debug.SetGCPercent(800))
 	c := newCollector()
+	stateSpaceC02(r) // first: the packages are in the state their initialisation left them in
 	spaces := c02Spaces(r.Thorough())
 	for ord, s := range spaces {
 		runSpace(r, c, ord, s, func(l *local, ord int, idx int64, v *Val, fresh bool) (bool, bool) {
@@ -540,6 +543,8 @@ func replayC02(class string, raw json.RawMessage) (string, bool) {
 		return "cannot decode input: " + err.Error(), false
 	}
 	switch in.Op {
+	case "statepath":
+		return replayStatePathC02(in)
 	case "roundtrip":
 		if in.Value == nil {
 			return "no value", false
